@@ -324,7 +324,9 @@ func (w *world) logoutStep(rs reqSpec) M {
 			T.oracle("C11", "logout redirect does not go to the end-session endpoint / configured post-logout URI", M{"loc": l, "want": post, "endSession": w.endSession, "tok": tokID}, w.replay())
 		}
 	default:
-		T.oracle("C11", "logout did not answer with a redirect", M{"class": obs["class"], "code": obs["code"]}, w.replay())
+		if !(w.esBad && obs["logout500"] == true) { // (no redirect can be built from an end-session endpoint that is not a URL: the session ends all the same)
+			T.oracle("C11", "logout did not answer with a redirect", M{"class": obs["class"], "code": obs["code"]}, w.replay())
+		}
 	}
 	w.loggedIn[w.b] = false
 	w.loggedOut[w.b] = true
